@@ -1,7 +1,9 @@
 mod checks;
 mod dd;
+mod hist;
 mod driver;
 mod model;
+mod mtbdd;
 mod proto;
 mod tdd;
 
